@@ -90,6 +90,14 @@ var directed = false
 // admits on a real chain): InitGenesis re-validates stored events
 var genesisMode = false
 
+// detMode (determinism suite): after every operation a hash over all stores and the emitted events
+// is recorded (lastCaseHashes); the history also contains failed transactions that wrote the token list
+// before failing (op 9: must leave no trace) and rebuilds of all keeper objects over the same stores
+// (op 10: a process restart; must change nothing)
+var detMode = false
+var lastCaseHashes []string
+var lastCaseShadowDiff = -1
+
 func genTokens(rng *Rng) []*types.TokenInfo {
 	prefixIds = (rng.Chance(1, 5) || directed) && !genesisMode
 	denoms := []string{"hub", "usdx", "eth"}
@@ -184,12 +192,30 @@ func runHubCase(seed uint64, nOps int, hostile bool, gov bool, restart bool, sta
 		return &HubOp{Kind: 7, Tokens: tokens, Holders: hc, Prices: pc}
 	}
 
+	// determinism suite: a shadow instance executes the same operations but rebuilds all keeper objects
+	// before each of them, so nothing the modules keep outside the stores ever survives there
+	var shadow *HubRun
+	lastCaseShadowDiff = -1
+	if detMode {
+		env2 := NewEnv(EnvOpts{Params: params, Tokens: tokens, States: []*types.ExternalState{{ChainId: "minter", DelegateKeys: dk,
+			LatestBlockHeight: types.LatestBlockHeight{}}}})
+		env2.Staking.Vals = append([]ValIn{}, env.Staking.Vals...)
+		shadow = &HubRun{env: env2, chains: allChains, nextNonce: map[string]uint64{}, voter: run.voter}
+	}
 	var ops, outs []V
 	do := func(op *HubOp) int64 {
 		opv := op.val(env) // before exec: env op reads the signer set
 		code, _ := run.exec(op)
 		ops = append(ops, opv)
 		outs = append(outs, L(I(code), observeHub(env, allChains)))
+		if detMode {
+			lastCaseHashes = append(lastCaseHashes, env.StateHash())
+			shadow.env.Wire()
+			code2, _ := shadow.exec(op)
+			if lastCaseShadowDiff < 0 && (code2 != code || Str(observeHub(shadow.env, allChains)) != Str(observeHub(env, allChains))) {
+				lastCaseShadowDiff = len(ops) - 1
+			}
+		}
 		stats[fmt.Sprintf("op%d_code%d", op.Kind, code)]++
 		return code
 	}
@@ -238,7 +264,24 @@ func runHubCase(seed uint64, nOps int, hostile bool, gov bool, restart bool, sta
 
 	// funding block: a few deposits applied by the first EndBlocker
 	funding := 2 + rng.Intn(4)
+	lastCaseHashes = nil
 	for len(ops) < nOps {
+		if detMode && rng.Chance(1, 10) {
+			if rng.Chance(1, 2) {
+				// a transaction that rewrites the token list (as a governance proposal handler does) and then fails
+				var mut []*types.TokenInfo
+				for _, t := range tokens {
+					c := *t
+					c.ExternalDecimals = uint64((int(t.ExternalDecimals) + 1 + rng.Intn(5)) % 25)
+					c.Commission = sdk.NewDecWithPrec(int64(rng.Intn(100)), 3)
+					mut = append(mut, &c)
+				}
+				do(&HubOp{Kind: 9, Tokens: mut})
+			} else {
+				do(&HubOp{Kind: 10})
+			}
+			continue
+		}
 		if inBlock && funding > 0 {
 			funding--
 			ch := extChains[rng.Intn(3)]
